@@ -45,6 +45,8 @@ def mtime_ns(mt):
     return (4000 + mt) * 250_000_000
 
 def body(n, v):
+    if v == 4:
+        return '<html><p tal:content="][">v4 of %s does not compile</p></html>' % n
     macros = {1: ["m1", "m2"], 2: ["m2", "m3"], 3: []}[v]
     src = "".join('<b metal:define-macro="%s">%s-v%d-%s</b>' % (m, m, v, n) for m in macros)
     doc = "<html><p>v%d of %s</p>%s</html>" % (v, n, src)
@@ -99,6 +101,22 @@ def _replay(args):
                         os.utime(p, ns=(mtime_ns(op["mt"]), mtime_ns(op["mt"])))
                     elif k == "open":
                         tpls[op["t"]] = Counting(os.path.join(dirs[op["d"]], op["n"] + ".pt"), auto_reload=op["auto"])
+                    elif k in ("render", "macros", "usemacro") and op.get("err"):
+                        # the file's current version does not compile: the use raises (and nothing older is served)
+                        t = tpls[op["t"]]
+                        try:
+                            if k == "render":
+                                got = t()
+                            elif k == "macros":
+                                got = sorted(t.macros.names)
+                            else:
+                                got = t.macros[op["m"]]
+                            why = "the file's current version does not compile, but the call returned %r" % (got,)
+                        except KeyError:
+                            why = "the file's current version does not compile, but the macro lookup answered from an earlier version"
+                        except Exception:   # noqa
+                            if "cooks" in op and t.cooks != op["cooks"]:
+                                why = "compiled %d times, specification %d" % (t.cooks, op["cooks"])
                     elif k == "render":
                         t = tpls[op["t"]]
                         got = t()
@@ -165,8 +183,10 @@ def run_model(ctx, maxops, simulate=None):
     try:
         open(os.path.join(wd, "MCFile.tla"), "w").write(MC)
         open(os.path.join(wd, "MCFile.cfg"), "w").write(
-            "SPECIFICATION Spec\nCONSTANTS\n Dirs <- MCDirs\n FNames <- MCNames\n Vers = {1, 2, 3}\n MaxOps = %d\n Dev <- MCDev\n"
-            "INVARIANT ServesLatest\nINVARIANT NothingFromEarlierVersions\nINVARIANT Emit\nPROPERTY NoRecompileWhenUnchanged\nPROPERTY SameInstance\n" % maxops)
+            "SPECIFICATION Spec\nCONSTANTS\n Dirs <- MCDirs\n FNames <- MCNames\n Vers = %s\n MaxOps = %d\n Dev <- MCDev\n"
+            "INVARIANT ServesLatest\nINVARIANT NothingFromEarlierVersions\nINVARIANT Emit\nPROPERTY NoRecompileWhenUnchanged\nPROPERTY SameInstance\n" % (
+                # (the version that does not compile takes part in the simulated, longer histories)
+                "{1, 2, 3, 4}" if simulate else "{1, 2, 3}", maxops))
         r = run_tlc("MCFile", "MCFile.cfg", wd, workers=1, timeout=3000, java_opts=["-Xmx8g"],
                     simulate=("num=%d" % simulate) if simulate else None, depth=(maxops + 2) if simulate else None,
                     seed=ctx.seed if simulate else None)
@@ -233,6 +253,25 @@ def loader_rules(ctx):
         # load: inside a file template looks next to that template first
         check("load: relative to the template first", PageTemplateFile(os.path.join(d2, "main.pt"), search_path=[d1])(), "<p>inc.pt in d2</p>")
         check("load: falls back to the search path", PageTemplateFile(os.path.join(d1, "main1.pt"), search_path=[d2])(), "<p>y.pt in d2</p>")
+        # a search path that mixes package entries and plain directories (absolute and relative to the working directory):
+        # a name that the package entry lacks is found in the directory -- as a file of that directory
+        cwd = os.getcwd()
+        try:
+            os.chdir(root)
+            os.mkdir(os.path.join(root, "rel"))
+            open(os.path.join(root, "rel", "only_here.pt"), "w").write('<p>only_here in rel <i tal:define="t load: beside.pt" metal:use-macro="t" /></p>')
+            open(os.path.join(root, "rel", "beside.pt"), "w").write("<i>beside in rel</i>")
+            for path in (["chameleon.tests:inputs", "rel"], ["chameleon.tests:inputs", os.path.join(root, "rel")],
+                         ["rel", "chameleon.tests:inputs"], ["chameleon.tests:outputs", "chameleon.tests:inputs", "rel"]):
+                Lp = TemplateLoader(path)
+                try:
+                    got = Lp.load("only_here.pt")()
+                except Exception as e:   # noqa
+                    got = "EXC %s: %s" % (type(e).__name__, str(e).splitlines()[:1])
+                check("search path %s: a name only the directory holds" % path, got, "<p>only_here in rel <i>beside in rel</i></p>")
+                check("search path %s: a name the package holds" % path, "Hello world" in Lp.load("hello_world.pt")(), True)
+        finally:
+            os.chdir(cwd)
         # one name requested in both formats: each format has its own instance of its own class, in either order
         from chameleon.zpt.template import PageTemplateFile as PTF, PageTextTemplateFile as PTTF
         open(os.path.join(d1, "both.pt"), "w").write("<p>${v}</p>")
